@@ -1,12 +1,15 @@
 /-
   C04 — invariants of the wait-table model (Node/WaitTable.lean) and their preservation by every step.
 
-  `Inv`  : the ownership discipline of the unchanged code (`Cfg.code`) under SAFE PICKS: every channel is held by at most
+  `Inv`  : the ownership discipline of the code with the replacement test and both give-up Triggers, atomic Trigger or not
+           (`Cfg.code`, `Cfg.preFix`), under SAFE PICKS: every channel is held by at most
            one of {a waiter, the pool}; a registration always belongs to a live waiter and its channel; a Trigger between
            its two parts targets an empty channel that nobody else can fill; a waiter whose channel holds a signal has its
            OWN applied result in its slot.  Inductive for every step (`inv_step`).
-  `Live` : under "no give-up inside a Trigger gap" every half-done Trigger still has its waiter — which makes every pick
-           a safe pick (`gapfree_admissible`).
+  `NoGap`: with the atomic Trigger (the code since fix 184e1b3) no Trigger is ever half-done, so EVERY pick is safe and `Inv`
+           holds for every schedule (`inv_run_code`).
+  `Live` : before the fix, under "no give-up inside a Trigger gap" every half-done Trigger still has its waiter — which
+           makes every pick a safe pick (`gapfree_admissible`).
   `InvB` : every request ends at most once — for EVERY configuration and schedule.
 -/
 import ZanVerif.Node.WaitTable
@@ -14,8 +17,12 @@ import ZanVerif.Node.WaitTable
 namespace Z.WaitTable
 
 theorem cfg_eq_code (cfg : Cfg) (hr : cfg.replaceStale = true) (ht : cfg.timeoutTriggers = true)
-    (hf : cfg.failTriggers = true) : cfg = Cfg.code := by
-  cases cfg; simp only [Cfg.code] at *; subst hr; subst ht; subst hf; rfl
+    (hf : cfg.failTriggers = true) (ha : cfg.atomicTrigger = true) : cfg = Cfg.code := by
+  cases cfg; simp only [Cfg.code] at *; subst hr; subst ht; subst hf; subst ha; rfl
+
+theorem cfg_eq_preFix (cfg : Cfg) (hr : cfg.replaceStale = true) (ht : cfg.timeoutTriggers = true)
+    (hf : cfg.failTriggers = true) (ha : cfg.atomicTrigger = false) : cfg = Cfg.preFix := by
+  cases cfg; simp only [Cfg.preFix, Cfg.code] at *; subst hr; subst ht; subst hf; subst ha; rfl
 
 /-! ### what the executable trace predicates mean -/
 
@@ -161,15 +168,36 @@ theorem inv_signal {s : State} (h : Inv s) (id : Id) : Inv (signal s id) := by
 
 set_option linter.unusedSimpArgs false
 
-theorem inv_applied {s : State} (h : Inv s) (id : Id) (r : Res) : Inv (applied s id r) := by
+theorem inv_applied {s : State} (h : Inv s) (atomic : Bool) (id : Id) (r : Res) : Inv (applied atomic s id r) := by
   unfold applied
   obtain ⟨h1, h2, h3, h4, h5, h6, h7, h8, h9, h10, h11, h12, h13, h14⟩ := h
   split
-  · split
-    · constructor <;> dsimp only <;> try simp only [upd_apply, ownResult]
-      all_goals grind
-    · constructor <;> dsimp only <;> try simp only [upd_apply, ownResult]
-      all_goals grind
+  · cases atomic with
+    | false =>
+      simp only [Bool.false_eq_true, ↓reduceIte]
+      split
+      · constructor <;> dsimp only <;> try simp only [upd_apply, ownResult]
+        all_goals grind
+      · constructor <;> dsimp only <;> try simp only [upd_apply, ownResult]
+        all_goals grind
+    | true =>
+      simp only [↓reduceIte, triggerNow]
+      split
+      · constructor <;> dsimp only <;> try simp only [upd_apply, ownResult]
+        all_goals grind
+      · rename_i ch ht
+        have hw : s.waiter id = some ch := h8 id ch ht
+        have hf : s.full ch = false := by grind
+        have hgn : s.gap id = none := by
+          cases hg : s.gap id with
+          | none => rfl
+          | some p =>
+            obtain ⟨c', r'⟩ := p
+            have := (h11 id c' r' hg).1
+            rw [ht] at this; exact absurd this (by simp)
+        simp only [hf, Bool.false_eq_true, ↓reduceIte]
+        constructor <;> dsimp only <;> try simp only [upd_apply, ownResult]
+        all_goals grind
   · constructor <;> assumption
 
 theorem inv_wake {s : State} (h : Inv s) (id : Id) : Inv (wake s id) := by
@@ -206,8 +234,8 @@ theorem inv_giveUp {s : State} (h : Inv s) (id : Id) : Inv (giveUp true s id) :=
       constructor <;> dsimp only <;> try simp only [upd_apply, ownResult]
       all_goals grind
 
-theorem inv_propose {s : State} (h : Inv s) (pick : Option Ch) (hg : safePick s (.propose pick) = true) :
-    Inv (propose Cfg.code s pick) := by
+theorem inv_propose {cfg : Cfg} (hr : cfg.replaceStale = true) {s : State} (h : Inv s) (pick : Option Ch)
+    (hg : safePick s (.propose pick) = true) : Inv (propose cfg s pick) := by
   have hgt : ∀ c, pick = some c → s.pool c = true → ∀ id ch r, s.gap id = some (ch, r) → ch ≠ c := by
     intro c hc hp
     subst hc
@@ -224,7 +252,7 @@ theorem inv_propose {s : State} (h : Inv s) (pick : Option Ch) (hg : safePick s 
     | false => rfl
     | true => exact absurd (h4 _ hf) (Nat.lt_irrefl _)
   unfold propose
-  simp only [htn, Cfg.code, Bool.true_and]
+  simp only [htn, hr, Bool.true_and]
   cases pick with
   | none =>
     simp only [Bool.false_eq_true, ↓reduceIte, hfn]
@@ -246,27 +274,106 @@ theorem inv_propose {s : State} (h : Inv s) (pick : Option Ch) (hg : safePick s 
       constructor <;> dsimp only <;> try simp only [upd_apply, ownResult]
       all_goals grind
 
-/-- the invariant is preserved by EVERY step of the unchanged code whose pick is safe -/
-theorem inv_step {s : State} (h : Inv s) (st : Step) (hg : safePick s st = true) : Inv (step Cfg.code s st) := by
+/-- the invariant is preserved by EVERY step whose pick is safe — with the replacement test and both give-up Triggers, whether
+    Trigger is atomic or not -/
+theorem inv_step {cfg : Cfg} (hr : cfg.replaceStale = true) (ht : cfg.timeoutTriggers = true) (hf : cfg.failTriggers = true)
+    {s : State} (h : Inv s) (st : Step) (hg : safePick s st = true) : Inv (step cfg s st) := by
   unfold step
   rw [if_neg (by rw [h.np]; decide)]
   cases st with
-  | propose pick => exact inv_propose h pick hg
-  | applied id r => exact inv_applied h id r
+  | propose pick => exact inv_propose hr h pick hg
+  | applied id r => exact inv_applied h _ id r
   | signal id => exact inv_signal h id
-  | timeout id => exact inv_giveUp h id
-  | fail id => exact inv_giveUp h id
+  | timeout id => rw [ht]; exact inv_giveUp h id
+  | fail id => rw [hf]; exact inv_giveUp h id
   | wake id => exact inv_wake h id
   | poolDrop c => exact inv_poolDrop h c
 
-theorem inv_run : ∀ (sched : List Step) (s : State), Inv s → admissible safePick Cfg.code s sched = true →
-    Inv (run Cfg.code s sched)
+theorem inv_run {cfg : Cfg} (hr : cfg.replaceStale = true) (ht : cfg.timeoutTriggers = true) (hf : cfg.failTriggers = true) :
+    ∀ (sched : List Step) (s : State), Inv s → admissible safePick cfg s sched = true → Inv (run cfg s sched)
   | [], _, h, _ => h
   | st :: rest, s, h, ha => by
     simp only [admissible, Bool.and_eq_true] at ha
-    exact inv_run rest _ (inv_step h st ha.1) ha.2
+    exact inv_run hr ht hf rest _ (inv_step hr ht hf h st ha.1) ha.2
 
-/-! ### no give-up inside a Trigger gap ⇒ every pick is safe -/
+/-! ### the atomic Trigger (since fix 184e1b3): no Trigger is ever half-done, every pick is safe -/
+
+def NoGap (s : State) : Prop := ∀ id, s.gap id = none
+
+theorem nogap_init : NoGap init := fun _ => rfl
+
+theorem triggerNow_gap (s : State) (id : Id) (x : Res) : (triggerNow s id x).gap = s.gap := by
+  unfold triggerNow; split <;> (try split) <;> rfl
+
+theorem triggerNow_waiter (s : State) (id : Id) (x : Res) : (triggerNow s id x).waiter = s.waiter := by
+  unfold triggerNow; split <;> (try split) <;> rfl
+
+theorem triggerNow_trace (s : State) (id : Id) (x : Res) : (triggerNow s id x).trace = s.trace := by
+  unfold triggerNow; split <;> (try split) <;> rfl
+
+theorem triggerNow_nextId (s : State) (id : Id) (x : Res) : (triggerNow s id x).nextId = s.nextId := by
+  unfold triggerNow; split <;> (try split) <;> rfl
+
+theorem nogap_step {cfg : Cfg} (ha : cfg.atomicTrigger = true) {s : State} (h : NoGap s) (st : Step) :
+    NoGap (step cfg s st) := by
+  unfold step
+  split
+  · exact h
+  cases st with
+  | propose pick =>
+    simp only [propose]
+    split <;> exact h
+  | applied id r =>
+    simp only [applied, ha, ↓reduceIte]
+    split
+    · intro i; rw [triggerNow_gap]; exact h i
+    · exact h
+  | signal id =>
+    simp only [signal, h id]
+    exact h
+  | timeout id =>
+    simp only [giveUp]
+    split
+    · exact h
+    · split <;> (try split) <;> (intro i; simp only [triggerNow_gap]; exact h i)
+  | fail id =>
+    simp only [giveUp]
+    split
+    · exact h
+    · split <;> (try split) <;> (intro i; simp only [triggerNow_gap]; exact h i)
+  | wake id =>
+    simp only [wake]
+    split
+    · exact h
+    · split <;> exact h
+  | poolDrop c => exact h
+
+theorem nogap_safePick {s : State} (h : NoGap s) (st : Step) : safePick s st = true := by
+  cases st with
+  | propose pick =>
+    cases pick with
+    | none => rfl
+    | some c =>
+      have : gapTargets s c = false := by
+        unfold gapTargets
+        rw [List.any_eq_false]
+        intro id _
+        simp [h id]
+      simp [safePick, this]
+  | _ => rfl
+
+theorem nogap_admissible {cfg : Cfg} (ha : cfg.atomicTrigger = true) :
+    ∀ (sched : List Step) (s : State), NoGap s → admissible safePick cfg s sched = true
+  | [], _, _ => rfl
+  | st :: rest, s, h => by
+    simp only [admissible, Bool.and_eq_true]
+    exact ⟨nogap_safePick h st, nogap_admissible ha rest _ (nogap_step ha h st)⟩
+
+/-- the code since fix 184e1b3: the invariant holds after EVERY schedule -/
+theorem inv_run_code (sched : List Step) : Inv (run Cfg.code init sched) :=
+  inv_run rfl rfl rfl sched init inv_init (nogap_admissible rfl sched init nogap_init)
+
+/-! ### before fix 184e1b3 (`Cfg.preFix`): no give-up inside a Trigger gap ⇒ every pick is safe -/
 
 /-- every Trigger between its parts still has its waiter -/
 def Live (s : State) : Prop := ∀ id ch r, s.gap id = some (ch, r) → s.waiter id = some ch
@@ -290,7 +397,7 @@ theorem live_safePick {s : State} (h : Inv s) (hl : Live s) (st : Step) : safePi
   | _ => rfl
 
 theorem live_step {s : State} (h : Inv s) (hl : Live s) (st : Step) (hg : noGiveUpInGap s st = true) :
-    Live (step Cfg.code s st) := by
+    Live (step Cfg.preFix s st) := by
   unfold step
   rw [if_neg (by rw [h.np]; decide)]
   obtain ⟨h1, h2, h3, h4, h5, h6, h7, h8, h9, h10, h11, h12, h13, h14⟩ := h
@@ -304,7 +411,7 @@ theorem live_step {s : State} (h : Inv s) (hl : Live s) (st : Step) (hg : noGive
     simp only [propose, htn, upd_apply]
     grind
   | applied id r =>
-    simp only [applied]
+    simp only [applied, Cfg.preFix, Cfg.code, Bool.false_eq_true, ↓reduceIte]
     split
     · split <;> (try dsimp only) <;> (try simp only [upd_apply]) <;> grind
     · exact hl
@@ -315,13 +422,13 @@ theorem live_step {s : State} (h : Inv s) (hl : Live s) (st : Step) (hg : noGive
     · split <;> (try dsimp only) <;> (try simp only [upd_apply]) <;> grind
   | timeout id =>
     simp only [noGiveUpInGap, Option.isNone_iff_eq_none] at hg
-    simp only [giveUp, Cfg.code, ↓reduceIte, triggerNow]
+    simp only [giveUp, Cfg.preFix, Cfg.code, ↓reduceIte, triggerNow]
     split
     · exact hl
     · split <;> (try split) <;> (try split) <;> (try dsimp only) <;> (try simp only [upd_apply]) <;> grind
   | fail id =>
     simp only [noGiveUpInGap, Option.isNone_iff_eq_none] at hg
-    simp only [giveUp, Cfg.code, ↓reduceIte, triggerNow]
+    simp only [giveUp, Cfg.preFix, Cfg.code, ↓reduceIte, triggerNow]
     split
     · exact hl
     · split <;> (try split) <;> (try split) <;> (try dsimp only) <;> (try simp only [upd_apply]) <;> grind
@@ -335,12 +442,12 @@ theorem live_step {s : State} (h : Inv s) (hl : Live s) (st : Step) (hg : noGive
   | poolDrop c => exact hl
 
 theorem gapfree_admissible : ∀ (sched : List Step) (s : State), Inv s → Live s →
-    admissible noGiveUpInGap Cfg.code s sched = true → admissible safePick Cfg.code s sched = true
+    admissible noGiveUpInGap Cfg.preFix s sched = true → admissible safePick Cfg.preFix s sched = true
   | [], _, _, _, _ => rfl
   | st :: rest, s, h, hl, ha => by
     simp only [admissible, Bool.and_eq_true] at ha ⊢
     have hsp := live_safePick h hl st
-    exact ⟨hsp, gapfree_admissible rest _ (inv_step h st hsp) (live_step h hl st ha.1) ha.2⟩
+    exact ⟨hsp, gapfree_admissible rest _ (inv_step rfl rfl rfl h st hsp) (live_step h hl st ha.1) ha.2⟩
 
 theorem live_init : Live init := by
   intro id ch r h; simp [init] at h
@@ -397,7 +504,17 @@ theorem invB_step (cfg : Cfg) {s : State} (h : InvB s) (st : Step) : InvB (step 
   | applied id r =>
     simp only [applied]
     split
-    · split <;> (constructor <;> (try dsimp only) <;> (try simp only [endsOnce, List.any_cons, finishes])) <;> grind
+    · have hlog : InvB { s with trace := Ev.applied id r :: s.trace } := by
+        constructor <;> (try dsimp only) <;> (try simp only [endsOnce, List.any_cons, finishes]) <;> grind
+      split
+      · obtain ⟨g1, g2, g3⟩ := hlog
+        exact ⟨by rw [triggerNow_waiter, triggerNow_nextId]; exact g1,
+               by rw [triggerNow_waiter, triggerNow_nextId, triggerNow_trace]; exact g2,
+               by rw [triggerNow_trace]; exact g3⟩
+      · split
+        · exact hlog
+        · obtain ⟨g1, g2, g3⟩ := hlog
+          exact ⟨g1, g2, g3⟩
     · exact ⟨h1, h2, h3⟩
   | signal id =>
     simp only [signal]
@@ -427,10 +544,10 @@ theorem invB_run (cfg : Cfg) : ∀ (sched : List Step) (s : State), InvB s → I
 
 theorem step_propose_pooled {s : State} {c : Ch} (hp : s.panicked = false) (hpool : s.pool c = true)
     (hf : s.full c = false) (ht : s.tab s.nextId = none) :
-    step Cfg.code s (.propose (some c)) =
+    step Cfg.preFix s (.propose (some c)) =
       { s with nextId := s.nextId + 1, pool := upd s.pool c false, tab := upd s.tab s.nextId (some c),
                waiter := upd s.waiter s.nextId (some c), trace := .proposed s.nextId c :: s.trace } := by
-  simp [step, hp, propose, hpool, hf, ht, Cfg.code]
+  simp [step, hp, propose, hpool, hf, ht, Cfg.code, Cfg.preFix]
 
 theorem step_signal {cfg : Cfg} {s : State} {id : Id} {ch : Ch} {r : Res} (hp : s.panicked = false)
     (hg : s.gap id = some (ch, r)) (hf : s.full ch = false) :
@@ -446,7 +563,7 @@ theorem step_wake {cfg : Cfg} {s : State} {id : Id} {ch : Ch} (hp : s.panicked =
   simp [step, hp, wake, hw, hf]
 
 theorem bad_pick_breaks {s : State} (h : Inv s) (c : Ch) (hu : safePick s (.propose (some c)) = false) :
-    ∃ id, ownResult (run Cfg.code s [.propose (some c), .signal id, .wake s.nextId]).trace = false := by
+    ∃ id, ownResult (run Cfg.preFix s [.propose (some c), .signal id, .wake s.nextId]).trace = false := by
   have hu' : (s.pool c && gapTargets s c) = true := by
     simp only [safePick] at hu
     cases hx : (s.pool c && gapTargets s c) with
